@@ -27,7 +27,8 @@ ASSUMPTIONS = [
 ]
 OBLIGATIONS = {"m=1": 20, "m=2": 20, "ties": 20, "all-below": 20, "all-above": 20,
                "constant-ens": 20, "nan-obs": 20, "float": 20, "n=1": 10,
-               "long-record": 1, "size-edge": 2, "n==m": 10, "members-sorted": 30,
+               "long-record": 1, "size-edge": 2, "scale:near-float-max": 50,
+               "after-call-with-missing-member": 20, "n==m": 10, "members-sorted": 30,
                "members-reverse-sorted": 30, "forecasts-sorted-by-obs": 30}
 
 
@@ -236,6 +237,16 @@ def run_case(ctx, case, rng=None):
     else:
         yv, xv = y, x
     nv = len(yv)
+    if m >= 2 and (n + m) % 5 == 0:
+        # a call outside the property (a forecast with some members missing) made
+        # before the judged one: whatever it answers, it must leave no trace
+        xbad = x.copy()
+        xbad[0, 0] = np.nan
+        ctx.tag("after-call-with-missing-member")
+        try:
+            crps(yin, xbad)
+        except Exception:
+            pass
     ctx.api("crps")
     d, table = decomp(crps(yin, x))
     c, rel, res, unc, pot = d
@@ -342,6 +353,15 @@ def run_case(ctx, case, rng=None):
         fx = float(2.0 ** e2)
         same(f"scale-2^{e2}", decomp(crps(yin * fx, x * fx))[0], factor=fx,
              tolrel=1e-12)
+    # ... up to the end of the float64 range (sums over forecasts of values near
+    # 1e306 must not overflow: the result is an average and stays finite)
+    if 1e-290 < scale < 1e290 and nv <= 200:
+        e3 = min(int(math.floor(math.log2(1.7e308) - math.log2(8 * scale))) - 1, 1000)
+        if e3 > 100:
+            fx = float(2.0 ** e3)
+            ctx.tag("scale:near-float-max")
+            same("scale-near-float-max", decomp(crps(yin * fx, x * fx))[0], factor=fx,
+                 tolrel=1e-12)
     f3 = float(rng.uniform(0.1, 37.0))
     same("scale", decomp(crps(yin * f3, x * f3))[0], factor=f3, tolrel=1e-10)
     # rows with a missing observation are ignored
